@@ -19,7 +19,9 @@ THEOREMS = ["Sympler.Stages.C06_stage_correct", "Sympler.Stages.C06_schedule_sou
             "Sympler.Stages.C06_terminates", "Sympler.Stages.C06_terminates_length", "Sympler.Stages.C06_terminates_depth",
             "Sympler.Stages.C06_sweeps_le_depth", "Sympler.Stages.C06_order_dependent_acceptance_witness",
             "Sympler.Stages.C06_values_order_independent", "Sympler.Stages.C06_values_any_stage_order"]
-MODULES = ["Sympler.Stages", "Sympler.StagesLemmas", "Props.C06"]
+MODULES = ["Sympler.Stages", "Sympler.StagesLemmas", "Sympler.Gen.StagesGen", "Props.C06", "Props.StagesBridge"]
+BR = ["Sympler.Stages.Bridge_visit", "Sympler.Stages.Bridge_stage_constants"]
+TR = "translator t_stages (all producer-update sites of the stage search in symbol.cpp: uniform rule, self exclusion; stageIterations default and bound)"
 
 
 def run_one(case, order, d, B=None):
@@ -87,7 +89,13 @@ def run(ctx):
     r = common.rng(ctx.seed, "c06")
     ok, out = common.ensure_build("hooks", targets=("sympler",))
     ctx.oblige("hooked build of /repo", ok, out[-300:])
-    lean_ok = common.lean_obligations(ctx, ["Sympler.Stages", "Props.C06", "symdrv"], ["Props.C06"], THEOREMS, MODULES)
+    try:
+        import t_stages
+        common.write_if_changed(os.path.join(common.LEAN, "Sympler/Gen/StagesGen.lean"), t_stages.generate(common.REPO))
+        ctx.oblige(TR, True)
+    except Exception as ex:
+        ctx.oblige(TR, False, repr(ex))
+    lean_ok = common.lean_obligations(ctx, ["Sympler.Stages", "Props.C06", "Props.StagesBridge", "symdrv"], ["Props.C06", "Props.StagesBridge"], THEOREMS + BR, MODULES)
     ngraphs = 35 if not ctx.thorough else 300
     base = os.path.join(common.WORK, "c06-%d" % os.getpid())
     all_diffs, all_viol = [], []
